@@ -17,6 +17,7 @@ pub struct Budget {
     pub long_size: usize,
 }
 
+// (the third alphabet is used by the thorough tier)
 pub fn alphabets() -> [&'static [&'static str]; 3] {
     [&gen::ALPHA_A, &gen::ALPHA_B, &gen::ALPHA_C]
 }
